@@ -97,8 +97,9 @@ def parseHdr (ws : List String) : Except String Hdr :=
       match (os.splitOn ";").mapM parseOptEntry with
       | some t =>
         let codes : Codes := { args := a, io := i, compile := c, decode := de, expr := e }
-        -- the hypothesis of Props.C17.exit_combines / exit_is_min: distinct, positive, io < decode < expr
-        if !(0 < i && i < de && de < e && 0 < a && 0 < c) then .error "exit codes violate 0 < io < decode < expr"
+        -- the hypothesis of Props.C17.exit_combines (LoopWf): positive, pairwise distinct
+        if !(0 < i && 0 < de && 0 < e && i != de && i != e && de != e && 0 < a && 0 < c) then
+          .error "exit codes of the remembered classes are not positive and pairwise distinct"
         else
           match (ots.splitOn ",").mapM (fun e => match e.splitOn ":" with
               | [k, ty] => (strOfHex k).map (fun k => (k, ty))
@@ -291,7 +292,10 @@ def stepC17 (st : Option Hdr) (op obs : String) : Option Hdr × String :=
   match words op with
   | "hdr" :: ws =>
     match parseHdr ws with
-    | .ok h => (some h, "OK")
+    | .ok h =>
+      -- the property statement names the numbers: 2 argument or file errors, 3 compile, 4 decode, 5 runtime
+      if h.codes == { args := 2, io := 2, compile := 3, decode := 4, expr := 5 } then (some h, "OK")
+      else (some h, s!"PROPFAIL exit code constants args={h.codes.args} io={h.codes.io} compile={h.codes.compile} decode={h.codes.decode} expr={h.codes.expr} differ from the documented 2 2 3 4 5")
     | .error e => (none, s!"BADOP header: {e}")
   | ws =>
     match st with
